@@ -38,6 +38,7 @@ EXEC = "interpreter::bytecode_vm::BytecodeVM::execute_op"
 # direct callers of `run` that are API contracts, not re-entrancy
 RUN_OK = {"interpreter::Interpreter::run_vm_to_completion": "eval(): runs to completion by contract of that entry point"}
 TABLE = os.path.join(os.path.dirname(os.path.abspath(__file__)), "tables", "c06_reentrant_natives.txt")
+ARM_TABLE = os.path.join(os.path.dirname(os.path.abspath(__file__)), "tables", "c06_reentrant_arms.txt")
 
 # recursion cycles with a reasoned bound (key = lexicographically first member)
 RECURSION_BOUNDED = {
@@ -184,6 +185,39 @@ def run(tier):
             ck.finding("R1b.reentrant-natives", "R1b.reentrant-natives/" + n, F.short_span(fx.fns[n].span),
                        "native `%s` can now re-enter the VM run loop (%s): script run from it escapes step accounting" % (n, " -> ".join(x.split("::")[-1] for x in (path or []))))
     ck.note("%d natives, %d re-entrant (table has %d)" % (len(nat), len(cur), len(table)))
+    # R1d: the same freeze for the instruction dispatch.  An opcode arm that calls a function from which the run loop is reachable executes
+    # script inside the current step.  The arms that do so today (coercions of operands, accessors, iterator protocol, decorators, proxies,
+    # eval) are listed; the call opcodes are not among them - a callee chosen by the script is entered through the trampoline
+    # (OpResult::Call).  A new arm, `Call` above all, is a violation.
+    ck.rule("R1d.reentrant-dispatch-arms", "the opcode arms of execute_op from which the VM run loop is reachable natively are the frozen table "
+                                           "(calls of script functions go through the trampoline)", floor=40)
+    ex = fx.fns[EXEC]
+    best = None
+    for bi, en, pl, arms, other, rest in M.enum_switches(fx, ex):
+        if str(en).endswith("bytecode::Op") and (best is None or len(arms) > len(best[3])):
+            best = (bi, en, pl, arms, other, rest)
+    try:
+        arm_table = [l.strip() for l in open(ARM_TABLE) if l.strip() and not l.startswith("#")]
+    except OSError:
+        arm_table = []
+        ck.closed_fail.append("table of re-entrant opcode arms missing: " + ARM_TABLE)
+    if ck.anchor(best is not None and len(best[3]) >= 100, "the opcode dispatch of execute_op (%d arms)" % (len(best[3]) if best else 0)):
+        found = {}
+        regions = {v: M.dominated_region(ex, t) for v, t in best[3].items()}
+        for b2, t in ex.calls():
+            d = t[1].get("d")
+            if d in reent or "ptr" in t[1]:
+                for v, reg in regions.items():
+                    if b2 in reg:
+                        found.setdefault(v, []).append((d or "function pointer", t[6]))
+        for v in sorted(found):
+            ok = v in arm_table
+            ck.instance("R1d.reentrant-dispatch-arms", "Op::%s -> %s" % (v, ", ".join(sorted({x[0].split("::")[-1] for x in found[v]}))), F.short_span(found[v][0][1]), ok=ok)
+            if not ok:
+                ck.finding("R1d.reentrant-dispatch-arms", "R1d.reentrant-dispatch-arms/" + v, F.short_span(found[v][0][1]),
+                           "the arm of `Op::%s` calls `%s`, from which the VM run loop is reachable: script entered there runs to completion on the native stack inside one "
+                           "step() - no step budget, no call_depth(), native stack overflow on deep recursion (`String.prototype.spin = function () { for (;;) {} }; 'x'.spin()`)"
+                           % (v, found[v][0][0]))
 
     # ---------------- R2
     ck.rule("R2.borrow-across-reentry", "no Ref/RefMut of a script object / promise / generator state is live at a call that may re-enter script", floor=300)
